@@ -441,6 +441,26 @@ class Unit:
             parts.append('#endif')
         parts.append('/* ---- extracted function definitions ---- */')
         parts.extend(self.func_text)
+        # one mechanical harness per extracted function: every parameter nondeterministic
+        parts.append('#ifndef NO_HARNESS')
+        for it in self.pending:
+            sig = it['sig']
+            em = cxx2c.Emitter(self.ctx, {})
+            decls = []
+            args = []
+            if sig.is_method:
+                decls.append('%s%s* self;' % ('const ' if sig.const_method else '', it['method_of']))
+                args.append('self')
+            for i, p in enumerate(sig.params):
+                cty = em.ctype(p.typ)
+                nm = 'a%d' % i
+                if p.byref:
+                    decls.append('%s%s* %s;' % ('const ' if p.const else '', cty, nm))
+                else:
+                    decls.append('%s%s %s;' % ('const ' if (p.const and cty.endswith('*')) else '', cty, nm))
+                args.append(nm)
+            parts.append('void h_%s(void) { %s %s(%s); }' % (sig.cname, ' '.join(decls), sig.cname, ', '.join(args)))
+        parts.append('#endif')
         for h in self.harness_files:
             parts.append('#ifndef NO_HARNESS')
             parts.append('#include "%s"' % h)
